@@ -66,10 +66,34 @@ def check_log(ctx, sess, case, what):
             cur[1] = off + dl
         else:
             cur[1] = off
+    # correspondence with the fragment kernels: observed write offsets == model tiling for the observed segment size
+    groups = {}
+    for svc, path, el, off, dl in frags:
+        if svc == 83:
+            groups.setdefault((path, el), []).append((off, dl))
+    for (path, el), lst in groups.items():
+        transfers, cur = [], []
+        for off, dl in lst:
+            if off == 0 and cur:
+                transfers.append(cur)
+                cur = []
+            cur.append((off, dl))
+        if cur:
+            transfers.append(cur)
+        for tr in transfers:
+            total = tr[-1][0] + tr[-1][1]
+            seg = tr[0][1]
+            want = sess.model.ask("k.writefrags %d %d" % (seg, total))
+            got = "ok " + " ".join("(%d %d)" % (o, l) for o, l in tr)
+            ctx.case("kernel-writefrags", ("wf", seg, total))
+            if want != got:
+                ctx.mismatch("kernel-writefrags", {"segment": seg, "total": total}, got[:300], want[:300])
     return log
 
 
 def run(ctx, model):
+    from props import kernels
+    kernels.run_plan(ctx, model, "C04")
     rng = ctx.rng
     windows = []
     for C in (500, 4000):
